@@ -92,6 +92,56 @@ def isFieldSeg (isLetter : Nat → Bool) (seg : Bytes) : Bool :=
 
 def inBounds53 (v : Int) : Bool := Facts.minInt53 ≤ v && v ≤ Facts.maxInt53
 
+/-- what the inner `switch` of `Parse` decides for a non-identity token -/
+inductive SegBody where
+  | iterator
+  | index (i : Int)
+  | field (name : Bytes)
+  | slice (lo hi : Int)
+
+/-- the segment literal each `case` appends: the token text is kept in `str` -/
+def mkSeg (tok : Bytes) (opt : Bool) : SegBody → Seg
+  | .iterator => { str := tok, optional := opt, iterator := true }
+  | .index i => { str := tok, optional := opt, index := i }
+  | .field f => { str := tok, optional := opt, isField := true, field := f }
+  | .slice l h => { str := tok, optional := opt, slice := some (l, h) }
+
+/-- one slice bound: empty = open (sentinel), otherwise `ParseInt` + the ±(2^53−1) test -/
+def sliceBound (b : Bytes) (sentinel : Int) : Except PErr Int :=
+  if b = [] then .ok sentinel
+  else match parseInt b with
+    | none => .error .invalidSliceIndex
+    | some i => if inBounds53 i then .ok i else .error .invalidSliceIndex
+
+/-- the cases of the `switch` after `seg == "."`, in source order; `seg` is the token without its
+    trailing question marks -/
+def classifyBody (isLetter : Nat → Bool) (seg : Bytes) : Except PErr SegBody :=
+  if seg = [cLBr, cRBr] then .ok .iterator
+  else if seg.head? = some cLBr ∧ seg.getLast? = some cRBr then
+    let lookup := (seg.drop 1).dropLast
+    if isSignedDigits1 lookup then
+      match parseInt lookup with
+      | none => .error .invalidIndex
+      | some idx => if inBounds53 idx then .ok (.index idx) else .error .indexBounds
+    else if lookup.head? = some cQuote ∧ lookup.getLast? = some cQuote then
+      if lookup.length < 2 then .error .panicSliceBounds
+      else
+        let name := (lookup.drop 1).dropLast
+        if name.contains cColon then .error .invalidSegment else .ok (.field name)
+    else if isSlice lookup then
+      match splitColon lookup with
+      | none => .error .invalidSegment
+      | some (a, b) =>
+        match sliceBound a minInt with
+        | .error e => .error e
+        | .ok l =>
+          match sliceBound b maxInt with
+          | .error e => .error e
+          | .ok h => .ok (.slice l h)
+    else .error .invalidSegment
+  else if isFieldSeg isLetter seg then .ok (.field (seg.drop 1))
+  else .error .invalidSegment
+
 /-- body of the `for _, tok := range tokenize(str)` loop for one token; `lastIdentity` says whether the
     previous segment is an identity segment -/
 def parseToken (isLetter : Nat → Bool) (lastIdentity : Bool) (tok : Bytes) : Except PErr Seg :=
@@ -99,42 +149,10 @@ def parseToken (isLetter : Nat → Bool) (lastIdentity : Bool) (tok : Bytes) : E
   let seg := if opt then trimQM tok else tok
   if seg = [cDot] then
     if lastIdentity then .error .recursiveDescent else .ok { str := [cDot], identity := true }
-  else if seg = [cLBr, cRBr] then .ok { str := tok, optional := opt, iterator := true }
-  else if seg.head? = some cLBr ∧ seg.getLast? = some cRBr then
-    let lookup := (seg.drop 1).dropLast
-    if isSignedDigits1 lookup then
-      match parseInt lookup with
-      | none => .error .invalidIndex
-      | some idx =>
-        if inBounds53 idx then .ok { str := tok, optional := opt, index := idx } else .error .indexBounds
-    else if lookup.head? = some cQuote ∧ lookup.getLast? = some cQuote then
-      if lookup.length < 2 then .error .panicSliceBounds
-      else
-        let name := (lookup.drop 1).dropLast
-        if name.contains cColon then .error .invalidSegment
-        else .ok { str := tok, optional := opt, isField := true, field := name }
-    else if isSlice lookup then
-      match splitColon lookup with
-      | none => .error .invalidSegment
-      | some (a, b) =>
-        let lo : Except PErr Int :=
-          if a = [] then .ok minInt
-          else match parseInt a with
-            | none => .error .invalidSliceIndex
-            | some i => if inBounds53 i then .ok i else .error .invalidSliceIndex
-        let hi : Except PErr Int :=
-          if b = [] then .ok maxInt
-          else match parseInt b with
-            | none => .error .invalidSliceIndex
-            | some i => if inBounds53 i then .ok i else .error .invalidSliceIndex
-        match lo, hi with
-        | .ok l, .ok h => .ok { str := tok, optional := opt, slice := some (l, h) }
-        | .error e, _ => .error e
-        | _, .error e => .error e
-    else .error .invalidSegment
-  else if isFieldSeg isLetter seg then
-    .ok { str := tok, optional := opt, isField := true, field := seg.drop 1 }
-  else .error .invalidSegment
+  else
+    match classifyBody isLetter seg with
+    | .error e => .error e
+    | .ok body => .ok (mkSeg tok opt body)
 
 def parseLoop (isLetter : Nat → Bool) : List Seg → List Bytes → Except PErr (List Seg)
   | sel, [] => .ok sel
